@@ -9,6 +9,7 @@ import Hoot.Props.C10
 import Hoot.Props.C11
 import Hoot.Proofs.ExchangeAll
 import Hoot.Proofs.ExchangeRefuse
+import Hoot.Proofs.ExchangeChain
 
 /-! # C01 — the exchange outcome is independent of I/O segmentation and buffer sizes
 
@@ -546,3 +547,170 @@ theorem xSafe302_ok : ∀ s ∈ xSafe302, xHead302.safeWin true s.m := by
 #guard recvDone (xRun true [] (xHead302.enc ++ xBody0.enc ++ xTail) xNew xSafe302).1
 #guard (xRun true [] (xHead302.enc ++ xBody0.enc ++ xTail) xNew xSafe302).1.st == .redirect
 #guard (xRun true [] (xHead302.enc ++ xBody0.enc ++ xTail) xNew xSafe302).2.2 == recvSpec xHead302 xBody0
+
+/-! ## Across redirects (Proofs/ExchangeChain.lean): what `as_new_flow` is handed is schedule-independent -/
+
+/-- **C01 (what a redirect hands to the next hop).** However the exchange was scheduled, once it is complete
+    the flow holds the analysed request `r`, the status of `H` and the last `Location` field of `H` — the three
+    things `as_new_flow` reads. -/
+theorem C01_redirect_state (hack : Bool) (f0 : Flow) (r : AReq) (wr0 : BodyWriter) (P : Bytes) (I H : Head) (b0 : BPos)
+    (tail pre : Bytes) (X : XSetup hack f0 r wr0 P I H b0 pre) (htail : b0.isClose = true → tail = []) (σ : List IoStep)
+    (hσ : ∀ s ∈ σ, H.safeWin hack s.m) (hd : recvDone (xRun hack P (pre ++ (H.enc ++ b0.enc ++ tail)) f0 σ).1 = true) :
+    (xRun hack P (pre ++ (H.enc ++ b0.enc ++ tail)) f0 σ).1.call.req = r ∧
+    (xRun hack P (pre ++ (H.enc ++ b0.enc ++ tail)) f0 σ).1.location = lastLocation H.parsed.fields ∧
+    (xRun hack P (pre ++ (H.enc ++ b0.enc ++ tail)) f0 σ).1.status = some H.codeVal := by
+  have hout := (C01_exchange_outcome hack f0 r wr0 P I H b0 tail pre X htail σ hσ hd).2.2.1
+  have hrv : recvish (xRun hack P (pre ++ (H.enc ++ b0.enc ++ tail)) f0 σ).1.st := by
+    unfold recvDone at hd
+    simp only [Bool.or_eq_true, beq_iff_eq] at hd
+    rcases hd with h | h
+    · exact Or.inr (Or.inr (Or.inl h))
+    · exact Or.inr (Or.inr (Or.inr h))
+  obtain ⟨h1, h2⟩ := x_run_remembers hack f0 r wr0 P I H b0 tail pre X htail σ hσ hrv
+  obtain ⟨h3, h4⟩ := h2 (by rw [hout]; rfl) H.parsed (by rw [hout]; rfl)
+  exact ⟨h1, h3, h4⟩
+
+/-- **C01 (the next hop is schedule-independent).** The answer of `as_new_flow` after a complete exchange —
+    the new flow with its method, target and inherited headers (C13–C15), or the refusal, or the error — is a
+    function of the request and the response head alone. -/
+theorem C01_redirect_next (hack : Bool) (f0 : Flow) (r : AReq) (wr0 : BodyWriter) (P : Bytes) (I H : Head) (b0 : BPos)
+    (tail pre : Bytes) (X : XSetup hack f0 r wr0 P I H b0 pre) (htail : b0.isClose = true → tail = []) (σ : List IoStep)
+    (hσ : ∀ s ∈ σ, H.safeWin hack s.m) (hd : recvDone (xRun hack P (pre ++ (H.enc ++ b0.enc ++ tail)) f0 σ).1 = true)
+    (sameHost : Bool) :
+    ((xRun hack P (pre ++ (H.enc ++ b0.enc ++ tail)) f0 σ).1.asNewFlow sameHost).2 =
+      followRes r (lastLocation H.parsed.fields) (some H.codeVal) sameHost := by
+  obtain ⟨h1, h2, h3⟩ := C01_redirect_state hack f0 r wr0 P I H b0 tail pre X htail σ hσ hd
+  rw [asNewFlow_res, h1, h2, h3]
+
+/-- **C01 (two hops).** An exchange answered by a redirect, `as_new_flow`, and the exchange of the flow it
+    returns (on whatever stream the next connection delivers): under any two complete schedules the second
+    request on the wire, the second response as observed and the final state are those the second exchange's
+    own setup dictates — the first schedule has no influence beyond having completed. -/
+theorem C01_chain2 (hack : Bool)
+    (f₁ : Flow) (r₁ : AReq) (w₁ : BodyWriter) (P₁ : Bytes) (I₁ H₁ : Head) (b₁ : BPos) (pre₁ tail₁ : Bytes)
+    (X₁ : XSetup hack f₁ r₁ w₁ P₁ I₁ H₁ b₁ pre₁) (ht₁ : b₁.isClose = true → tail₁ = [])
+    (sameHost : Bool) (f₂ : Flow) (hnext : followRes r₁ (lastLocation H₁.parsed.fields) (some H₁.codeVal) sameHost = .flow f₂)
+    (r₂ : AReq) (w₂ : BodyWriter) (P₂ : Bytes) (I₂ H₂ : Head) (b₂ : BPos) (pre₂ tail₂ : Bytes)
+    (X₂ : XSetup hack f₂ r₂ w₂ P₂ I₂ H₂ b₂ pre₂) (ht₂ : b₂.isClose = true → tail₂ = [])
+    (σ₁ σ₂ : List IoStep) (hσ₁ : ∀ s ∈ σ₁, H₁.safeWin hack s.m) (hσ₂ : ∀ s ∈ σ₂, H₂.safeWin hack s.m)
+    (hd₁ : recvDone (xRun hack P₁ (pre₁ ++ (H₁.enc ++ b₁.enc ++ tail₁)) f₁ σ₁).1 = true) :
+    ((xRun hack P₁ (pre₁ ++ (H₁.enc ++ b₁.enc ++ tail₁)) f₁ σ₁).1.asNewFlow sameHost).2 = .flow f₂ ∧
+    (recvDone (xRun hack P₂ (pre₂ ++ (H₂.enc ++ b₂.enc ++ tail₂)) f₂ σ₂).1 = true →
+      SendSpec r₂ w₂ P₂ (xRun hack P₂ (pre₂ ++ (H₂.enc ++ b₂.enc ++ tail₂)) f₂ σ₂).2.1.wire ∧
+      (xRun hack P₂ (pre₂ ++ (H₂.enc ++ b₂.enc ++ tail₂)) f₂ σ₂).2.2 = (recvSpec H₂ b₂).shift pre₂.length ∧
+      (xRun hack P₂ (pre₂ ++ (H₂.enc ++ b₂.enc ++ tail₂)) f₂ σ₂).1.st = terminalSt H₂) := by
+  refine ⟨?_, ?_⟩
+  · rw [C01_redirect_next hack f₁ r₁ w₁ P₁ I₁ H₁ b₁ tail₁ pre₁ X₁ ht₁ σ₁ hσ₁ hd₁ sameHost, hnext]
+  · intro hd₂
+    obtain ⟨a, _, c, d, _⟩ := C01_exchange_outcome hack f₂ r₂ w₂ P₂ I₂ H₂ b₂ tail₂ pre₂ X₂ ht₂ σ₂ hσ₂ hd₂
+    exact ⟨a, c, d⟩
+
+/-- non-vacuity of the two-hop statement: `GET http://a/` answered `302` with `Location: /n`; the flow
+    `as_new_flow` returns is `GET http://a/n`, a covered start, and its exchange (answered by the example
+    response) completes with the same outcome under a tiny-buffer and a huge-buffer schedule -/
+def xReq1 : AReq := xNew.call.analyzeRequest.1.req
+def xUri2 : Uri := { scheme := "http", host := "a", port := none, path := "/n", query := none }
+def xF2 : Flow := followFlow xReq1 .get xUri2 false
+
+example : XSetup true xNew xReq1 BodyWriter.newNone [] c11Head xHead302 xBody0 [] where
+  send := sendSetup_of_new .get .h11 d10Call.req.uri [] rfl (isOkUnit_eq _ (by decide +kernel))
+  hnd := by decide +kernel
+  resp := xRespOk302
+  int := c11Interim
+  hpre := Or.inr ⟨by decide +kernel, rfl⟩
+
+example : XSetup true xF2 xF2.call.analyzeRequest.1.req BodyWriter.newNone [] c11Head xHead xBody [] where
+  send := C01_follow_setup xReq1 .get .get 302 xUri2 false (by decide) (isOkUnit_eq _ (by decide +kernel))
+  hnd := by decide +kernel
+  resp := xRespOk
+  int := c11Interim
+  hpre := Or.inr ⟨by decide +kernel, rfl⟩
+
+-- the hypothesis `hnext` of `C01_chain2` for this instance (evaluated: URL resolution works on `String`s,
+-- which the kernel does not reduce), and the whole chain run on the model
+#guard (match followRes xReq1 (lastLocation xHead302.parsed.fields) (some xHead302.codeVal) false with
+        | .flow f => f == xF2 | _ => false)
+#guard (match ((xRun true [] (xHead302.enc ++ xBody0.enc ++ xTail) xNew xSafe302).1.asNewFlow false).2 with
+        | .flow g => g == xF2 && recvDone (xRun true [] xStream g xTiny).1 &&
+            (xRun true [] xStream g xTiny).2 == (xRun true [] xStream xF2 xHuge).2 &&
+            (xRun true [] xStream g xHuge).2.1.wire == "GET /n HTTP/1.1\r\nhost: a\r\n\r\n".toUTF8.toList
+        | _ => false)
+
+
+/-- one hop of a redirect chain: the exchange (request side `r w P`, interim `I pre`, response `H b`, what
+    follows it on that connection `tail`), the schedule it is run under, and the credentials policy used when
+    following it -/
+structure Hop where
+  r : AReq
+  w : BodyWriter
+  P : Bytes
+  I : Head
+  H : Head
+  b : BPos
+  pre : Bytes
+  tail : Bytes
+  σ : List IoStep
+  sameHost : Bool
+
+def Hop.stream (h : Hop) : Bytes := h.pre ++ (h.H.enc ++ h.b.enc ++ h.tail)
+
+/-- the caller's loop over a whole chain: run the exchange, ask `as_new_flow`, go on with the flow it returns -/
+def chainRun (hack : Bool) : Flow → List Hop → List (Flow × SendObs × RecvObs)
+  | _, [] => []
+  | f, h :: rest =>
+    (xRun hack h.P h.stream f h.σ) ::
+      match ((xRun hack h.P h.stream f h.σ).1.asNewFlow h.sameHost).2 with
+      | .flow g => chainRun hack g rest
+      | _ => []
+
+/-- a chain of covered exchanges: every hop is an `XSetup` of the flow it starts from, its schedule is safe and
+    complete, and — unless it is the last — `followRes` of its request and response head is the next flow -/
+def ChainOK (hack : Bool) : Flow → List Hop → Prop
+  | _, [] => True
+  | f, h :: rest =>
+    XSetup hack f h.r h.w h.P h.I h.H h.b h.pre ∧ (h.b.isClose = true → h.tail = []) ∧
+    (∀ s ∈ h.σ, h.H.safeWin hack s.m) ∧ recvDone (xRun hack h.P h.stream f h.σ).1 = true ∧
+    (rest = [] ∨ ∃ g, followRes h.r (lastLocation h.H.parsed.fields) (some h.H.codeVal) h.sameHost = .flow g ∧ ChainOK hack g rest)
+
+/-- what every run of the chain observes, hop by hop -/
+def ChainSpec : List Hop → List (Flow × SendObs × RecvObs) → Prop
+  | [], [] => True
+  | h :: rest, x :: xs =>
+    SendSpec h.r h.w h.P x.2.1.wire ∧ x.2.2 = (recvSpec h.H h.b).shift h.pre.length ∧ x.1.st = terminalSt h.H ∧
+    ChainSpec rest xs
+  | _, _ => False
+
+/-- **C01 (a redirect chain as one run).** Any number of hops: under any complete schedules, hop by hop, the
+    request on the wire is the one its setup renders, the response is observed exactly, the state is
+    terminal, and the flow `as_new_flow` returns is the next hop's start — so the whole chain's observations
+    do not depend on any of the schedules. -/
+theorem C01_chain (hack : Bool) (hops : List Hop) : ∀ (f : Flow), ChainOK hack f hops →
+    ChainSpec hops (chainRun hack f hops) := by
+  induction hops with
+  | nil => intro f _; trivial
+  | cons h rest ih =>
+    intro f hok
+    obtain ⟨X, ht, hσ, hd, hnext⟩ := hok
+    obtain ⟨a, _, c, d, _⟩ := C01_exchange_outcome hack f h.r h.w h.P h.I h.H h.b h.tail h.pre X ht h.σ hσ hd
+    unfold chainRun
+    refine ⟨a, c, d, ?_⟩
+    rcases hnext with rfl | ⟨g, hg, hrest⟩
+    · -- last hop: whatever as_new_flow says, nothing follows
+      split
+      · unfold chainRun; trivial
+      · trivial
+    · have hn := C01_redirect_next hack f h.r h.w h.P h.I h.H h.b h.tail h.pre X ht h.σ hσ hd h.sameHost
+      unfold Hop.stream
+      rw [hn, hg]
+      exact ih g hrest
+
+/-- the two-hop instance above as a chain, run as one: both hops observed as specified, under the safe
+    windows of the redirect head and a tiny-buffer schedule for the second hop (evaluated) -/
+def xHop1 : Hop := { r := xReq1, w := BodyWriter.newNone, P := [], I := c11Head, H := xHead302, b := xBody0, pre := [],
+                     tail := xTail, σ := xSafe302, sameHost := false }
+def xHop2 (σ : List IoStep) : Hop :=
+  { r := xF2.call.analyzeRequest.1.req, w := BodyWriter.newNone, P := [], I := c11Head, H := xHead, b := xBody, pre := [],
+    tail := xTail, σ := σ, sameHost := false }
+#guard (chainRun true xNew [xHop1, xHop2 xTiny]).map (·.2.2) == [recvSpec xHead302 xBody0, recvSpec xHead xBody]
+#guard (chainRun true xNew [xHop1, xHop2 xHuge]).map (·.2.2) == [recvSpec xHead302 xBody0, recvSpec xHead xBody]
+#guard (chainRun true xNew [xHop1, xHop2 xTiny]).map (·.1.st) == [.redirect, .cleanup]
